@@ -9,10 +9,10 @@ namespace {
 const std::vector<std::string> kSpecial = {"snap", "pre", "alpha", "beta", "rc"};
 const std::vector<std::string> kWords = {"snap", "pre", "alpha", "beta", "rc", "final", "p", "a", "b", "patch", "zeta", "gamma"};
 
-struct Ver { std::vector<long> nums; std::string word; long sufnum = -1; };
+struct Ver { std::vector<long> nums; std::string word; long sufnum = -1; long pad = 0; /* 2 bits per component: leading zeros */ };
 std::string render(const Ver &v) {
     std::string s;
-    for (size_t i = 0; i < v.nums.size(); i++) { if (i) s += '.'; s += std::to_string(v.nums[i]); }
+    for (size_t i = 0; i < v.nums.size(); i++) { if (i) s += '.'; s += std::string((size_t)((v.pad >> (2 * i)) & 3), '0'); s += std::to_string(v.nums[i]); }
     s += v.word;
     if (v.sufnum >= 0) s += std::to_string(v.sufnum);
     return s;
@@ -86,6 +86,7 @@ struct Runner {
         if (!a.word.empty() && !b.word.empty() && a.word != b.word) ctx.label("wellformed:pre-release-word-pair");
         if (a.word.empty() != b.word.empty()) ctx.label("wellformed:suffix-vs-bare");
         if (a.nums.size() != b.nums.size()) ctx.label("wellformed:prefix-pair");
+        if (a.pad || b.pad) ctx.label("wellformed:leading-zeros");
     }
     void batch(const Op &op) {
         static const char alpha[] = {'a', 'b', '0', '1', '.', '-'};
@@ -109,6 +110,7 @@ Ver op_ver(const Op &op, size_t ibase, size_t sidx) {
     v.word = op.s(sidx);
     v.sufnum = op.i(ibase + 5, -1);
     if (v.word.empty()) v.sufnum = -1;
+    v.pad = op.i(12 + (ibase ? 1 : 0), 0);
     return v;
 }
 
@@ -151,6 +153,9 @@ rc::Gen<Case> gen_case() {
             o.ints = {(long)na.size(), 0, 0, 0, 0, *range(0, 2) == 0 ? -1 : *range(0, 30), (long)nb.size(), 0, 0, 0, 0, *range(0, 2) == 0 ? -1 : *range(0, 30)};
             for (size_t i = 0; i < na.size(); i++) o.ints[1 + i] = na[i];
             for (size_t i = 0; i < nb.size(); i++) o.ints[7 + i] = nb[i];
+            // leading zeros do not change a numeric component ("1.05" is "1.5")
+            o.ints.push_back(*range(0, 2) == 0 ? *range(0, 255) : 0);
+            o.ints.push_back(*range(0, 2) == 0 ? *range(0, 255) : 0);
             o.strs = {wa, wb};
             c.push_back(o);
         } else {
